@@ -60,6 +60,8 @@ trait Help {
     fn via_ref(&self, s: u64) -> u64 { self.req(s) }
     fn via_pin(self: std::pin::Pin<&mut Self>, s: u64) -> u64 { self.req(s) }
     fn bref(&self) -> &A;
+    fn reqv(self, s: u64) -> u64;
+    fn via_own(self, s: u64) -> u64 where Self: Sized { let d = DROPS.lock().unwrap().len() as u64; self.reqv(s) + 1000 * d }
 }
 
 /// an instance that has lent values is dropped while its thread unwinds from an unrelated panic: the values are
@@ -80,7 +82,8 @@ fn run_unwind_drop(n: usize, clone: bool, out: &mut impl Write) {
 
 /// values lent through the delegation helpers of provided methods stay alive until the mock is torn down
 fn run_helper(n: usize, end: usize, out: &mut impl Write) {
-    let mut u = Unimock::new(HelpMock::req.each_call(matching!(_)).answers(&|u, s| { u.make_ref(A(s)); s }));
+    let lend = || HelpMock::req.each_call(matching!(_)).answers(&|u, s| { u.make_ref(A(s)); s });
+    let mut u = if end == 3 { Unimock::new((lend(), HelpMock::reqv.each_call(matching!(_)).answers(&|_, s| s + DROPS.lock().unwrap().len() as u64))) } else { Unimock::new(lend()) };
     let mut early = vec![];
     let mut wrong = 0;
     for k in 0..n {
@@ -92,6 +95,11 @@ fn run_helper(n: usize, end: usize, out: &mut impl Write) {
     }
     // how the instance ends: dropped; re-configured with no_verify_in_drop() first (nothing may be released by that); verified explicitly
     match end {
+        3 => {
+            // a by-value provided method: inside its default body and inside the required method's answer nothing lent so far is gone
+            let r = u.via_own(7);
+            if r != 7 { early.push(format!("during-by-value-delegation:[result {r}: 1000 x values dropped when the default body started + 1 x values dropped when the answer ran]")); }
+        }
         1 => {
             let u2 = u.no_verify_in_drop();
             let d = take_drops();
@@ -108,14 +116,16 @@ fn run_helper(n: usize, end: usize, out: &mut impl Write) {
 /// a value configured with returns() for a borrowed return lives in the mock: it is dropped exactly once, when the last instance
 /// sharing the state goes — however that instance ends (drop, verify(), report())
 fn run_returns_drop(end: usize, out: &mut impl Write) {
-    let u = Unimock::new(HelpMock::bref.each_call(matching!()).returns(A(77)));
+    // end 3 / 4: an expectation stays unmet, so verify() panics (caught) / report() says FAILURE — the value is released all the same
+    let u = if end >= 3 { Unimock::new(HelpMock::bref.each_call(matching!()).returns(A(77)).n_times(5)) } else { Unimock::new(HelpMock::bref.each_call(matching!()).returns(A(77))) };
     let c = u.clone();
     let reads = (u.bref().0, c.bref().0);
     drop(c);
     let early = take_drops();
     match end {
         1 => u.verify(),
-        2 => { let _ = std::process::Termination::report(u); }
+        2 | 4 => { let _ = std::process::Termination::report(u); }
+        3 => { let _ = std::panic::catch_unwind(std::panic::AssertUnwindSafe(move || u.verify())); }
         _ => drop(u),
     }
     let fin = take_drops();
